@@ -238,3 +238,28 @@ Theorem C09_full_stack_skip_follows_the_observable :
       a_view a = skipn (val (f_lim s')) (values (g_o (f_g s'))).
 Proof. exact full_skip_view. Qed.
 Print Assumptions C09_full_stack_skip_follows_the_observable.
+
+(* the same on the batched subscriber stream (FullStackB.v) *)
+From EB Require Import FullStackB FullStackBFacts.
+
+Theorem C09_full_stack_batched_head_follows_the_observable :
+  forall (A : Type) veq heq vdefault capacity okd limit0 (evs : list (fev A)) s fuel s',
+    frun_b veq heq vdefault head_on_diff head_update_limit head_full_init (fsb_init capacity okd limit0) evs = ROk s ->
+    fstep_b veq heq vdefault head_on_diff head_update_limit head_full_init s (FPoll fuel) = ROk (s', FBAnswer Pending) ->
+    no_silent evs ->
+    ver (fb_lim s') <> 0 ->
+    exists a, fb_ad s' = Some a /\
+      b_view a = firstn (val (fb_lim s')) (values (g_o (fb_g s'))).
+Proof. exact fullb_head_view. Qed.
+Print Assumptions C09_full_stack_batched_head_follows_the_observable.
+
+Theorem C09_full_stack_batched_skip_follows_the_observable :
+  forall (A : Type) veq heq vdefault capacity okd limit0 (evs : list (fev A)) s fuel s',
+    frun_b veq heq vdefault skip_on_diff skip_update_count skip_full_init (fsb_init capacity okd limit0) evs = ROk s ->
+    fstep_b veq heq vdefault skip_on_diff skip_update_count skip_full_init s (FPoll fuel) = ROk (s', FBAnswer Pending) ->
+    no_silent evs ->
+    ver (fb_lim s') <> 0 ->
+    exists a, fb_ad s' = Some a /\
+      b_view a = skipn (val (fb_lim s')) (values (g_o (fb_g s'))).
+Proof. exact fullb_skip_view. Qed.
+Print Assumptions C09_full_stack_batched_skip_follows_the_observable.
